@@ -132,9 +132,18 @@ class SimSolver:
                 raise
             rec["status"] = prob.status
             rec["value"] = None if prob.value is None else float(prob.value)
+            try:
+                rec["peer_values"] = {id(v): (None if v.value is None else np.array(v.value, dtype=float).copy()) for v in prob.variables()}
+            except Exception:
+                rec["peer_values"] = {}
             self._fire("budget")
             return out
         out = self._orig(prob, *args, **kwargs)
+        # what the peer itself answered, before EAO touches it (variable values right after the solve)
+        try:
+            rec["peer_values"] = {id(v): (None if v.value is None else np.array(v.value, dtype=float).copy()) for v in prob.variables()}
+        except Exception:
+            rec["peer_values"] = {}
         if fault and fault.startswith("status:"):
             s = fault.split(":", 1)[1]
             prob._status = s
